@@ -277,6 +277,12 @@ def _generate(ctx):
                  files={"NamesG6.cfg": _cfg("NamesGen.cfg", Codes="{65}", MaxN="6", MaxRules="4", RuleTypes="{1, 3}",
                                             PoolSel='"clash"', TextSel='"A"')},
                  label="Names generation (simulate, k-way name collisions)"), "generation (collisions)")
+    # name length: 2..4 glyphs share a text whose glyph-list name is exactly as long as a name may be
+    take(ctx.tlc("Names", cfg="NamesG10.cfg", workers=w, simulate=ctx.pick(40, 300), depth=80, timeout=1500,
+                 files={"NamesG10.cfg": _cfg("NamesGen.cfg", Codes="{}", MinN="3", MaxN="5", MaxRules="0", RuleTypes="{1}",
+                                            PoolSel='"tiny"', TextSel='"long"', Kinds='{"cff", "cid"}',
+                                            CmapFormats='{"4"}')},
+                 label="Names generation (simulate, names at the length limit)"), "generation (length limit)")
     # ligature SETS: all ligatures hang off glyph 1 in one subtable, 2..4 components, in every order of
     # nameable / abandoned at component k / nameable.  No cmap and no colliding names: a glyph is
     # either named for good or unnamed until a rule names it.
